@@ -36,6 +36,8 @@ def scenarios(tier):
     if q:
         out.append(dict(name="interp-N3-sub2_6_1_4", fn="interp", params=dict(N=3, sub=[2, 6, 1, 4], packed=False), cost=30))
         out.append(dict(name="interp-N3-two-particles", fn="interp", params=dict(N=3, sub=[1, 6, 1, 5], packed=False, two=True), cost=40))
+        # wide subgrid (7 x 4 cells), both particles in symbolic cells of the valid region: per-particle bookkeeping keyed on cell indices
+        out.append(dict(name="interp-N2-two-particles-wide", fn="interp", params=dict(N=2, sub=[1, 8, 1, 5], packed=False, two="cells", LM=(9, 6)), cost=60))
     out.append(dict(name="packed", fn="interp", params=dict(N=2, sub=[1, 6, 1, 5], packed=True), cost=20))
     out.append(dict(name="linear", fn="linear", params=dict(N=2, sub=[1, 6, 1, 5]), cost=10))
     return out
@@ -141,6 +143,8 @@ def _vert(W, zcol, depth_neg, N):
 
 
 def interp(W, p):
+    global L, M
+    L, M = p.get("LM", (7, 6))
     N = p["N"]
     roms, timer, grid, S, F, (u, v, temp), mask, (scale, offs) = _setup(W, p)
     i0, i1, j0, j1 = _norm_sub(p["sub"])
@@ -150,7 +154,14 @@ def interp(W, p):
     y = W.real("y", j0 + W.frac(1, 2), j1 - 1 - W.frac(1, 2), lo_strict=True, hi_strict=True)
     zp = W.real("zp", -10, 2000)
     idx = 0
-    if p.get("two"):
+    if p.get("two") == "cells":
+        # both particles sit at fixed offsets inside symbolic cells (all pairs of cells of the valid region are explored)
+        ci1, cj1 = W.idx(W.int("cell_i1", i0 + 1, i1 - 2)), W.idx(W.int("cell_j1", j0 + 1, j1 - 2))
+        ci0, cj0 = W.idx(W.int("cell_i0", i0 + 1, i1 - 2)), W.idx(W.int("cell_j0", j0 + 1, j1 - 2))
+        W.assume(W.all([W.eq(x, ci1 + W.frac(1, 5)), W.eq(y, cj1 - W.frac(3, 10))]), "two-particle scenario: fixed offset inside a symbolic cell")
+        S.append(X=ci0 - W.frac(1, 4), Y=cj0 + W.frac(1, 8), Z=W.real("z_other", 0, 120))
+        idx = 1
+    elif p.get("two"):
         # (the free particle is confined to one cell here; position coverage is the business of the one-particle scenarios)
         W.assume(W.all([W.lt(i0 + 2 - W.frac(2, 5), x), W.lt(x, i0 + 2 + W.frac(2, 5)), W.lt(j0 + 1 - W.frac(2, 5), y), W.lt(y, j0 + 1 + W.frac(2, 5))]), "two-particle scenario: free particle inside one cell")
         # a second particle in another column at another depth goes first: per-particle arrays (K, A, indices) must not be shared
@@ -219,8 +230,14 @@ def _oracle(W, p, N, x, y, zp, ci, cj, z, u, v, temp, mask, scale, offs):
     return exp_u, exp_v, (ci, cj, [oT + sT * temp[0][klo][cj][ci], oT + sT * temp[0][khi][cj][ci]], (gu, ju, iv, gv, klo, khi))
 
 
+def _reset_dims(p):
+    global L, M
+    L, M = p.get("LM", (7, 6))
+
+
 def linear(W, p):
     """u_k(x,y) = a_k + b x + c y on every level, no land: exact; with a_k linear in a flat column's level depth: linear in depth"""
+    _reset_dims(p)
     N = p["N"]
     al, ga, b, c = W.real("alpha", -1, 1), W.real("gamma", -W.frac(1, 100), W.frac(1, 100)), W.real("b", -1, 1), W.real("c", -1, 1)
     # flat column depths are chosen first so the field can be linear in them
